@@ -5,6 +5,7 @@ package main
 
 import (
 	"fmt"
+	"go/constant"
 	"go/token"
 	"go/types"
 	"sort"
@@ -492,4 +493,114 @@ func structOfValue(v ssa.Value) *ssa.Alloc {
 		}
 	}
 	return nil
+}
+
+// rejectionReasons lists, for every failing exit of f (error result non-nil, or a false boolean result when
+// wantFalse), the branch condition that decides it, as "<canonical condition>=<truth>" in f's frame. A condition
+// that is a call of a module predicate / checker is replaced by that function's own reasons (parameters renamed to
+// the caller's arguments), so a check may sit in a helper. Reasons are the closed set of ways f can say no.
+func (c *Ctx) rejectionReasons(f *ssa.Function, env Env, boolFalse bool, depth int) []string {
+	set := map[string]bool{}
+	var fromEdge func(p, x *ssa.BasicBlock, d int)
+	addCond := func(cond ssa.Value, truth bool) {
+		for d := 0; d < 4; d++ {
+			u, ok := cond.(*ssa.UnOp)
+			if !ok || u.Op != token.NOT {
+				break
+			}
+			cond, truth = u.X, !truth
+		}
+		// a module function deciding: descend
+		if cl, ok := cond.(*ssa.Call); ok && depth < 3 {
+			if g := cl.Call.StaticCallee(); g != nil && inModule(g) && g.Blocks != nil && boolResult(g) && !truth {
+				for _, r := range c.rejectionReasons(g, c.calleeEnv(&cl.Call, g, env), true, depth+1) {
+					set[r] = true
+				}
+				return
+			}
+		}
+		// err != nil of a module checker's error: descend
+		if bo, ok := cond.(*ssa.BinOp); ok && (bo.Op == token.NEQ || bo.Op == token.EQL) && depth < 3 {
+			var ev ssa.Value
+			if k, isK := bo.Y.(*ssa.Const); isK && k.IsNil() {
+				ev = bo.X
+			} else if k, isK := bo.X.(*ssa.Const); isK && k.IsNil() {
+				ev = bo.Y
+			}
+			if ev != nil && isErrType(ev.Type()) && (bo.Op == token.NEQ) == truth {
+				var cl *ssa.Call
+				switch y := ev.(type) {
+				case *ssa.Call:
+					cl = y
+				case *ssa.Extract:
+					cl, _ = y.Tuple.(*ssa.Call)
+				}
+				if cl != nil {
+					if g := cl.Call.StaticCallee(); g != nil && inModule(g) && g.Blocks != nil {
+						for _, r := range c.rejectionReasons(g, c.calleeEnv(&cl.Call, g, env), false, depth+1) {
+							set[r] = true
+						}
+						return
+					}
+				}
+			}
+		}
+		set[fmt.Sprintf("%s=%v", c.Path(cond, env), truth)] = true
+	}
+	fromEdge = func(p, x *ssa.BasicBlock, d int) {
+		if d > 8 {
+			set["?=undetermined"] = true
+			return
+		}
+		if iff, ok := p.Instrs[len(p.Instrs)-1].(*ssa.If); ok && p.Succs[0] != p.Succs[1] {
+			addCond(iff.Cond, p.Succs[0] == x)
+			return
+		}
+		if len(p.Preds) == 0 {
+			set["unconditional=true"] = true
+			return
+		}
+		for _, pp := range p.Preds {
+			fromEdge(pp, p, d+1)
+		}
+	}
+	for _, b := range f.Blocks {
+		r, ok := b.Instrs[len(b.Instrs)-1].(*ssa.Return)
+		if !ok || len(r.Results) == 0 {
+			continue
+		}
+		failing := false
+		last := r.Results[len(r.Results)-1]
+		if boolFalse {
+			if k, isK := last.(*ssa.Const); isK && k.Value != nil && k.Value.Kind() == constant.Bool {
+				failing = !constant.BoolVal(k.Value)
+			} else if !isConstTrue(last) {
+				// a computed boolean result: the computation itself is the reason
+				addCond(last, false)
+				continue
+			}
+		} else if isErrType(last.Type()) {
+			failing = !maySucceed(r)
+		}
+		if !failing {
+			continue
+		}
+		if len(b.Preds) == 0 {
+			set["unconditional=true"] = true
+		}
+		for _, p := range b.Preds {
+			fromEdge(p, b, 0)
+		}
+	}
+	var out []string
+	for k := range set {
+		out = append(out, k)
+	}
+	sort.Strings(out)
+	return out
+}
+
+func isConstTrue(v ssa.Value) bool {
+	k, ok := v.(*ssa.Const)
+	return ok && k.Value != nil && k.Value.Kind() == constant.Bool && constant.BoolVal(k.Value)
 }
